@@ -299,6 +299,42 @@ Proof.
   - intros H. destruct (IH Hr H) as [Hin Hm]. split; [right; exact Hin|exact Hm].
 Qed.
 
+(* the wiring of create_state_machine: link bundles are filtered against every documented key *)
+Lemma outgoing_in_documented op k : In k (outgoing_keys op) -> In k (documented_keys op).
+Proof.
+  unfold outgoing_keys, documented_keys. intros H. apply in_flat_map in H. destruct H as [[k' n] [Hin Hr]].
+  cbn [fst snd] in Hr. apply repeat_spec in Hr. subst. apply in_map_iff. exists (k', n). split; [reflexivity|exact Hin].
+Qed.
+
+Lemma wf_keys_outgoing op : wf_keys (documented_keys op) = true -> wf_keys (outgoing_keys op) = true.
+Proof.
+  unfold wf_keys. intros H. apply forallb_forall. intros k Hk.
+  exact (proj1 (forallb_forall _ _) H k (outgoing_in_documented _ _ Hk)).
+Qed.
+
+Lemma machine_bundle_sound op code k :
+  wf_keys (documented_keys op) = true -> machine_bundle op code = Some k ->
+  In k (outgoing_keys op) /\ spec_matches k (documented_keys op) code = true.
+Proof. intros Hw H. exact (bundle_sound _ _ _ _ (wf_keys_outgoing _ Hw) Hw H). Qed.
+
+(* in particular: a documented key without links still keeps the response out of the default bundle *)
+Lemma documented_blocks_default op code k n :
+  wf_keys (documented_keys op) = true -> In (k, n) op -> str_eqb k s_default = false -> key_matches k code = true ->
+  machine_bundle op code <> Some s_default.
+Proof.
+  intros Hw Hin Hd Hm H. destruct (machine_bundle_sound _ _ _ Hw H) as [_ Hs].
+  unfold spec_matches in Hs. change (str_eqb s_default s_default) with true in Hs. cbn iota in Hs.
+  assert (Hk : In k (documented_keys op)) by (apply in_map_iff; exists (k, n); split; [reflexivity|exact Hin]).
+  pose proof (proj1 (forallb_forall _ _) Hs k Hk) as Hf. rewrite Hd, Hm in Hf. discriminate.
+Qed.
+
+Example machine_bundle_nonvacuous :
+  let op := [([50;48;49], 1%nat); ([52;48;57], 0%nat); (s_default, 1%nat)] in      (* 201: link, 409: none, default: link *)
+  wf_keys (documented_keys op) = true /\ machine_bundle op 409 = None /\ machine_bundle op 500 = Some s_default
+  /\ machine_bundle op 201 = Some [50;48;49]
+  /\ bundle_of (outgoing_keys op) (outgoing_keys op) 409 = Some s_default.     (* what filtering against the link keys only would do *)
+Proof. repeat split; vm_compute; reflexivity. Qed.
+
 Example status_nonvacuous :
   wf_keys [[50;48;49]; [50;88;88]; s_default] = true /\
   response_filter [50;88;88] [[50;48;49]; [50;88;88]; s_default] 204 = Some true /\
